@@ -55,3 +55,13 @@ def g(k: int = 1, flat=sum(rows, [])) -> str:        # default arguments (FURB12
 
 r1 = g(1)
 r2 = f"call: {g(1)}"
+
+# special forms: mypy keeps an `analyzed` node beside the call that shares the argument expression,
+# so what is traversed depends on whether any enabled check looks at calls
+from typing import Any, assert_type, cast
+
+k1 = cast(bool, r1 == "1" or r1 == "2")
+k2 = cast(int, not not rows)
+k3 = assert_type(name.lstrip().rstrip(), str)
+k4 = cast(Any, [x for row in rows for x in row])
+k5 = cast(str, f"{name}")
